@@ -431,7 +431,7 @@ impl Ctx {
                 self.rep.sample(json!({"kind": "variant", "class": class, "freedoms": used.iter().map(|(k, n)| format!("{}×{}", k, n)).collect::<Vec<_>>(),
                     "base": base.src, "variant": src, "behaviour": base.beh, "ast_equal": true}));
             }
-            let k_this = if thorough { (index + vi) % 5 == 0 } else { (index + vi) % 16 == 0 };
+            let k_this = if thorough { (index + vi) % 6 == 0 } else { (index + vi) % 16 == 0 };
             if k_this {
                 self.trace_k(&src, class);
             }
